@@ -218,7 +218,11 @@ def update_resource_class(req):  # noqa
     context.can(policies.UPDATE)
 
     # Use JSON validation to validation resource class name.
-    util.extract_json('{"name": "%s"}' % name, schema.PUT_RC_SCHEMA_V1_2)
+    # NOTE: serialise the name properly: building the document by string
+    # formatting lets quotes and backslashes in the URL change what is
+    # validated (e.g. smuggle in a second "name" key).
+    util.extract_json(jsonutils.dumps({'name': name}),
+                      schema.PUT_RC_SCHEMA_V1_2)
 
     status = 204
     try:
